@@ -1,6 +1,7 @@
 import Driver.Proto
 import XsdataModel.Py.TblEnv
 import XsdataModel.Samples.Infer
+import XsdataModel.Conv.TblCEnv
 import XsdataModel.Samples.Mapper
 import XsdataModel.Samples.Reduce
 open Lean Proto Py Xs.Samples
@@ -25,17 +26,13 @@ def dOptStr (j : Json) : Except String (Option Str) :=
   | .str s => .ok (some s.toList)
   | _ => .error s!"expected optional string: {j.compress}"
 
-/-- the abstract strict tests arrive as a table `[[s, float?, decimal?], …]` -/
+/-- `repr(float(s))` arrives as a map `freprs` for the strings of the request that `float()` accepts -/
 def dEnv (a : Json) : Except String SEnv := do
-  let rows ← match fld a "abs" with
-    | .arr xs => xs.toList.mapM fun r =>
-        match r with
-        | .arr #[s, f, d] => do pure ((← asStr s), (← dBool f), (← dBool d))
-        | _ => .error "bad abs row"
-    | .null => pure []
-    | _ => .error "bad abs"
-  let look (s : Str) : Bool × Bool := ((rows.find? (·.1 = s)).map (·.2)).getD (false, false)
-  pure { py := tblEnv, floatStrict := fun s => (look s).1, decimalStrict := fun s => (look s).2 }
+  let freprs := fld a "freprs"
+  pure { conv := Xs.Conv.tblCEnv fun s =>
+    match freprs.getObjVal? (String.ofList s) with
+    | .ok (.str r) => r.toList
+    | _ => "?missing-float-repr".toList }
 
 def dScalar (j : Json) : Except String Scalar :=
   match j with
